@@ -25,7 +25,7 @@ var c09Kinds = []string{"empty", "empty", "empty", "up-to-date", "tainted", "sel
 // percent increase being resolved against the nodes the replica set targets (excluded and reserved
 // nodes do not count).
 func TestC09Creation(t *testing.T) {
-	rec := evid.New("TestC09Creation", "C09", "1-12 nodes each in {empty, already served, untolerated taint, node-selector mismatch, reserved for a running canary}; slowStartAdditiveIncrease int or percent, interval 1m/5m, maxParallelPodCreation 1/3/250, one pod creation of the sync optionally refused or stored-but-answered-with-an-error (generic or typed), sync at T0 + {0, interval-1s, interval, 2.5 interval, 10 interval}; oracle = rate monitor (creates <= bound, percent resolved against targeted nodes); non-trivial = percent increase, at least one excluded/reserved node and at least two empty targeted nodes; distinct by layout+strategy+age")
+	rec := evid.New("TestC09Creation", "C09", "1-12 nodes each in {empty, already served, untolerated taint, node-selector mismatch, reserved for a running canary}; slowStartAdditiveIncrease int or percent (incl. 0 and 0%: nothing may be created), interval 1m/5m, maxParallelPodCreation 0/1/3/250, one pod creation of the sync optionally refused or stored-but-answered-with-an-error (generic or typed), sync at T0 + {0, interval-1s, interval, 2.5 interval, 10 interval}; oracle = rate monitor (creates <= bound, percent resolved against targeted nodes); non-trivial = percent increase, at least one excluded/reserved node and at least two empty targeted nodes; distinct by layout+strategy+age")
 	t.Cleanup(func() {
 		if !t.Failed() {
 			rec.Done()
@@ -47,9 +47,9 @@ func c09Creation(rec *evid.Rec, rt *rapid.T, on mon.Set, forC01 bool) {
 		ageK := rapid.SampledFrom([]string{"0", "interval-1s", "interval", "2.5*interval", "10*interval"}).Draw(rt, "age")
 		age := map[string]time.Duration{"0": 0, "interval-1s": interval - time.Second, "interval": interval, "2.5*interval": interval*5/2 + 300*time.Millisecond, "10*interval": 10 * interval}[ageK]
 		st := edsv1.ExtendedDaemonSetSpecStrategy{}
-		st.RollingUpdate.SlowStartAdditiveIncrease = gen.IntOrPercent(rt, "slowStartAdditiveIncrease", []string{"1", "2", "5", "10%", "25%", "50%", "100%"})
+		st.RollingUpdate.SlowStartAdditiveIncrease = gen.IntOrPercent(rt, "slowStartAdditiveIncrease", []string{"1", "2", "5", "10%", "25%", "50%", "100%", "0", "0%"})
 		st.RollingUpdate.SlowStartIntervalDuration = &metav1.Duration{Duration: interval}
-		mp := rapid.SampledFrom([]int32{1, 3, 250}).Draw(rt, "maxParallelPodCreation")
+		mp := rapid.SampledFrom([]int32{1, 3, 250, 250, 0}).Draw(rt, "maxParallelPodCreation")
 		st.RollingUpdate.MaxParallelPodCreation = &mp
 
 		c := sim.New(sim.Options{AffinityMode: rapid.Bool().Draw(rt, "affinityMode")})
